@@ -47,9 +47,20 @@ type c18Rec struct {
 
 var c18Now = time.Unix(1700000000, 0)
 
+// c18NUsers: users 0..3 have 16-byte UIDs (what clients present); users 4 and 5 are records an administrator created
+// under a UID of another length (the API accepts any): a 3-byte one and a 20-byte one that extends user 0's UID.
+// They take part in the store operations only - no client can connect as them.
+const c18NUsers = 6
+
 func c18UID(i int) []byte {
 	u := []byte("c18-user-0000000")
 	u[15] = byte('0' + i)
+	switch i {
+	case 4:
+		return []byte("c18")
+	case 5:
+		return append(c18UID(0), 'l', 'o', 'n', 'g')
+	}
 	return u
 }
 
@@ -139,7 +150,7 @@ func pstr(p *int64) string {
 
 // c18CheckAll reads every UID through GET and the list and compares with the model.
 func c18CheckAll(e *c18Env, model map[int]*c18Rec, phase string) error {
-	for u := 0; u < 4; u++ {
+	for u := 0; u < c18NUsers; u++ {
 		code, body := e.do("GET", "/admin/users/"+base64.URLEncoding.EncodeToString(c18UID(u)), nil)
 		rec := model[u]
 		if rec == nil {
@@ -318,6 +329,9 @@ func c18RunInner(sc c18Scenario) (res vk.Result, err error) {
 				return res, vk.Violatef("%s: database cannot be reopened: %v", phase, oerr)
 			}
 		case "connect":
+			if len(uid) != 16 {
+				continue // no client can present such a UID
+			}
 			// what dispatchConnection does for a user outside the bypass list, without any recover()
 			user, gerr := e.panel.GetUser(uid)
 			if gerr == nil {
@@ -334,6 +348,9 @@ func c18RunInner(sc c18Scenario) (res vk.Result, err error) {
 				res.Labels = append(res.Labels, "connect-refused")
 			}
 		case "upload":
+			if len(uid) != 16 {
+				continue // usage is only ever uploaded for UIDs clients presented
+			}
 			if op.Via == "panel" {
 				up, down := op.Up, op.Down
 				var a [16]byte
@@ -382,7 +399,7 @@ func c18Gen(rt *rapid.T) c18Scenario {
 	)
 	n := rapid.IntRange(1, 14).Draw(rt, "nops")
 	for i := 0; i < n; i++ {
-		op := c18Op{U: rapid.IntRange(0, 3).Draw(rt, "u")}
+		op := c18Op{U: rapid.SampledFrom([]int{0, 0, 1, 1, 2, 3, 4, 5}).Draw(rt, "u")}
 		op.K = rapid.SampledFrom([]string{"post", "post", "post", "postgood", "postgood", "badpost", "get", "list", "delete", "reopen", "connect", "connect", "upload", "upload"}).Draw(rt, "k")
 		switch op.K {
 		case "post":
